@@ -70,6 +70,20 @@ CHECKS = {
                      "Oracle: every command exits 0 with no SQLite/busy/lock message, integrity_check ok, every Files row and Deps edge each command must write is present, "
                      "contents correct, run ids unique.",
                 note="No gate inside an IMMEDIATE transaction (mutually excluded by SQLite, atomic for other processes). <= 3 commands; all scripts succeed."),
+    "C11": dict(engine="E1", category="model_checking", design_ref="DESIGN.md §4 C11",
+                technique="explicit-state BFS over histories mixing builds with user create/edit/replace/remove, ownership-ledger oracle",
+                text="All histories <= d (quick 3, thorough 5) of {redo-ifchange a.x|t|all, redo a.x|t, edit src, user-edit in place (two sizes), user-replace (new inode), "
+                     "user-rm} for a name matched by default.x.do and a name with a specific t.do; an ownership ledger records the last writer of each path. Every redo "
+                     "command must leave bytes and inode of every user-owned path unchanged, warn when it skips a user-modified generated file, run only scripts the reference "
+                     "allows and rebuild correctly after the user removed the file.",
+                note="-j1; two names, one default and one specific rule. Edits that keep mtime AND size identical are not generated (redo's documented detection is by mtime/size)."),
+    "C12": dict(engine="E1 (-j1) + E2 (-j2)", category="model_checking", design_ref="DESIGN.md §4 C12",
+                technique="exhaustive enumeration of cyclic graph family x entry points at -j1; stateless schedule exploration at -j2 with deadlock/livelock detection",
+                text="E1: every world with cycle length 1..4 (quick 1..3), prefix 0..2 (quick 0..1), with/without acyclic sibling, entered from every node with redo-ifchange "
+                     "and redo, twice, and with the sibling in both orders with/without keep-going: terminates, non-zero, not an abort, names the cyclic dependency, sibling built "
+                     "under -k. E2: cycle members / prefix+sibling as parallel jobs at -j2 and two invocations, all schedules <= b deviations: termination is decided as absence of "
+                     "reachable deadlock or livelock states.",
+                note="One known finding (two members of one cycle as parallel jobs of one redo process hang) is listed in known_findings.json and reported as KNOWN-FINDING."),
     "C13": dict(engine="E4 + single-step real-binary enumeration", category="exploration", design_ref="DESIGN.md §4 C13",
                 technique="exhaustive enumeration of target paths x all 2^k placements of candidate scripts, independent reference of the documented search order",
                 text="E4: for every target path of a component grammar (5 directory shapes x 9 name shapes incl. leading dots, double dots, spaces, unicode; "
